@@ -297,8 +297,12 @@ def case_npy(ctx, inp):
         files = sorted(f for f in os.listdir(dirname) if f.endswith(".npy"))
         if len(files) != len(chunks[axis]):
             ctx.fail("to_npy_stack wrote a wrong number of files", observed=files, expected=len(chunks[axis]))
-        b = da.from_npy_stack(dirname, mmap_mode=inp["mmap"])
-        got = np.asarray(b.compute(scheduler="sync"))
+        try:
+            b = da.from_npy_stack(dirname, mmap_mode=inp["mmap"])
+            got = np.asarray(b.compute(scheduler="sync"))
+        except Exception as e:   # a stack written by to_npy_stack must be readable
+            ctx.fail("from_npy_stack(to_npy_stack(x)) raised " + type(e).__name__, observed=repr(e)[:300])
+            return
         model = unsym(ctx.lean(Sym("npychunks"), axis, [list(c) for c in chunks]))
         ctx.eq("chunks of from_npy_stack", model, [[int(v) for v in c] for c in b.chunks])
         if got.shape != a.shape or got.dtype != a.dtype or (got != a).any():
